@@ -182,8 +182,25 @@ theorem isInfix_eq (p : Str) : ∀ (s : Str), isInfix p s = hasSub p s
   | [] => rfl
   | c :: cs => by simp only [isInfix, hasSub, isInfix_eq p cs]
 
+/-- the three documented type-like substrings of `Spec.Qual.typeLike` -/
+def specTypePatterns : List Str :=
+  [['_', 'c', 'l', 'a', 's', 's'], ['g', 'b', 'k', 'e', 'y'], ['_', 't', 'y', 'p', 'e']]
+
+/-- TIE: the generated FEATURE_TYPE_IDENTIFIERS is the documented set -/
+theorem typeIds_tie : sameSet Gen.features_FEATURE_TYPE_IDENTIFIERS specTypePatterns = true := by decide +kernel
+
+theorem typeLike_eq_any (k : Str) : typeLike k = specTypePatterns.any fun p => hasSub p (Spec.Qual.lowerStr k) := by
+  simp [typeLike, specTypePatterns, Bool.or_assoc]
+
 theorem typeRegex_eq (k : Str) : typeRegexSearch k = typeLike k := by
-  simp [typeRegexSearch, typeLike, typeIdentifiers, isInfix_eq, lowerStr_eq, Bool.or_assoc]
+  rw [typeLike_eq_any]
+  unfold typeRegexSearch typeIdentifiers
+  have ht := sameSet_iff.mp typeIds_tie
+  rw [Bool.eq_iff_iff, List.any_eq_true, List.any_eq_true]
+  simp only [isInfix_eq, lowerStr_eq]
+  constructor
+  · rintro ⟨p, hp, h⟩; exact ⟨p, (ht p).mp hp, h⟩
+  · rintro ⟨p, hp, h⟩; exact ⟨p, (ht p).mpr hp, h⟩
 
 theorem typesFold_mem : ∀ (qs : QDict) (acc : List Str) (x : Str),
     x ∈ qs.foldl (fun acc e => if typeRegexSearch e.1 then setUpdate acc e.2 else acc) acc ↔
